@@ -40,11 +40,10 @@ class _FromState(_TransitionBuilder):
         return self.__call__(AnyState(), **kwargs)
 
     def __call__(self, *states: "State", **kwargs):
-        transitions = TransitionList()
-        for origin in states:
-            transition = Transition(origin, self._state, **kwargs)
-            origin.transitions.add_transitions(transition)
-            transitions.add_transitions(transition)
+        # every transition is built (and validated) before any of them is attached to its origin
+        transitions = TransitionList(Transition(origin, self._state, **kwargs) for origin in states)
+        for transition in transitions:
+            transition.source.transitions.add_transitions(transition)
         return transitions
 
 
